@@ -12,11 +12,13 @@ import (
 func (c *Config) MatchStandaloneJSON(t testingT, input any, matchers ...match.JSONMatcher) {
 	t.Helper()
 
-	if c.extension == "" {
-		c.extension = ".json"
+	// work on a copy: the Config may be shared between calls and goroutines
+	cc := *c
+	if cc.extension == "" {
+		cc.extension = ".json"
 	}
 
-	matchStandaloneJSON(c, t, input, matchers...)
+	matchStandaloneJSON(&cc, t, input, matchers...)
 }
 
 func MatchStandaloneJSON(t testingT, input any, matchers ...match.JSONMatcher) {
